@@ -81,6 +81,28 @@ func (r *idleBeforeEOF) Read(p []byte) (int, error) {
 	return n, nil
 }
 
+// basicOnlyStore implements storage.ReadableStorage and nothing more.
+type basicOnlyStore struct {
+	bag     map[string][]byte
+	failGet bool // Get returns the data together with an error
+}
+
+func (b *basicOnlyStore) Has(_ context.Context, key string) (bool, error) {
+	_, ok := b.bag[key]
+	return ok, nil
+}
+
+func (b *basicOnlyStore) Get(_ context.Context, key string) ([]byte, error) {
+	v, ok := b.bag[key]
+	if !ok {
+		return nil, errors.New("basicOnlyStore: no such key")
+	}
+	if b.failGet {
+		return append([]byte{}, v...), errInjected
+	}
+	return append([]byte{}, v...), nil
+}
+
 // closingReader is what a file-backed store hands out: an io.ReadCloser that refuses reads once it is closed.
 type closingReader struct {
 	io.Reader
@@ -299,6 +321,57 @@ func c06Check(c C06Case, rec *evid.Rec) error {
 
 	// results of good loads are kept across everything that follows: what a load returned must still hash to
 	// its link after any number of later loads (of other, damaged or failing data) through the same link system
+	// a store of the plainest kind (Has and Get only, no streaming) attached with SetReadStorage: what it has
+	// loads; what it does not have, or cannot read without an error, does not — not even when the link asked for is
+	// the link of the empty block (which "no data" would hash to)
+	{
+		emptyLnk, eerr := lsys.ComputeLink(lk.LP{Version: 1, Codec: lk.CodecRaw, MhType: 0x12, MhLength: 32}.Proto(), basicnode.NewBytes([]byte{}))
+		if eerr != nil {
+			return eerr
+		}
+		for _, mode := range []string{"has-it", "absent", "absent-empty-block", "data-with-error"} {
+			bs := &basicOnlyStore{bag: map[string][]byte{}}
+			want := lnk
+			switch mode {
+			case "has-it":
+				bs.bag[lnk.Binary()] = block
+			case "absent-empty-block":
+				want = emptyLnk
+			case "data-with-error":
+				bs.bag[lnk.Binary()] = block
+				bs.failGet = true
+			}
+			ls := cidlink.DefaultLinkSystem()
+			ls.SetReadStorage(bs)
+			for _, loader := range []string{"Load", "LoadRaw", "LoadPlusRaw", "Fill"} {
+				lctx := linking.LinkContext{Ctx: context.Background()}
+				err := evid.Guard(loader, func() error {
+					var e error
+					switch loader {
+					case "Load":
+						_, e = ls.Load(lctx, want, basicnode.Prototype.Any)
+					case "LoadRaw":
+						_, e = ls.LoadRaw(lctx, want)
+					case "LoadPlusRaw":
+						_, _, e = ls.LoadPlusRaw(lctx, want, basicnode.Prototype.Any)
+					default:
+						e = ls.Fill(lctx, want, basicnode.Prototype.Any.NewBuilder())
+					}
+					return e
+				})
+				if mode == "has-it" && err != nil {
+					return fmt.Errorf("%s from a Has/Get-only store holding block %x (%s) failed: %v", loader, block, c.LP, err)
+				}
+				if mode != "has-it" && err == nil {
+					return fmt.Errorf("%s from a Has/Get-only store (%s) reported success", loader, mode)
+				}
+				if err != nil && strings.HasPrefix(err.Error(), "PANIC") {
+					return fmt.Errorf("%s from a Has/Get-only store (%s): %v", loader, mode, err)
+				}
+				rec.ClassN("fault:basic-store/"+mode, 1)
+			}
+		}
+	}
 	keptRaw, kerr := lsys.LoadRaw(linking.LinkContext{Ctx: context.Background()}, lnk)
 	if kerr != nil {
 		return fmt.Errorf("LoadRaw of the block just stored failed: %w", kerr)
